@@ -582,7 +582,7 @@ def check(pid, tier, seed, only_group=None):
         with open(rp, "w") as f:
             json.dump(dict(property=pid, seed=seed, tier=tier, group=v["group"], index=v["idx"], signature=sig,
                            clause=v["clause"], witness_class=v["cls"], witness=v["witness"], case=v["desc"],
-                           steps=v["steps"], occurrences=len(vs), repo=REPO), f, indent=1)
+                           steps=v["steps"], occurrences=len(vs), repo=REPO, env=v.get("env")), f, indent=1)
         replays.append(rp)
         print("VIOLATION property=%s replay=%s" % (pid, rp))
         print("  signature: %s (%d occurrences)" % (sig, len(vs)))
@@ -642,6 +642,8 @@ def replay(pid, path):
     exe = os.path.join(d, "hx", pid)
     env = dict(os.environ)
     env.update(ASAN_ENV)
+    if r.get("env"):
+        env.update(r["env"])
     known_active = [k for k in load_known() if k.get("property") == pid and k.get("status") == "known"]
     args = [exe, "--run", "--tier", r["tier"], "--seed", str(r["seed"]), "--group", r["group"],
             "--from", str(r["index"]), "--to", str(r["index"] + 1), "--replay"]
